@@ -318,6 +318,18 @@ Theorem C06_unnamed_repush_refused_file : forall fx ov d c h2 s c',
 Proof. exact file_unnamed_repush_refused. Qed.
 Print Assumptions C06_unnamed_repush_refused_file.
 
+(* content never pushed is absent: fetching or tagging it is not-found -- for every history
+   and option setting, titled successors and the aliasing name included *)
+Theorem C06_absent_notfound_file : forall fx ig ov h g,
+  (forall d c, In (Push d c) h -> d_dig d <> g) ->
+  let s := fst (runf (file_step fx ig ov) file_init h) in
+  forall d r, d_dig d = g ->
+    snd (file_step fx ig ov s (Fetch d)) = FO (OErr ENotFound) /\
+    snd (file_step fx ig ov s (Exists d)) = FO (OBool false) /\
+    (r <> REmpty -> snd (file_step fx ig ov s (Tag d r)) = FO (OErr ENotFound)).
+Proof. exact file_absent_notfound. Qed.
+Print Assumptions C06_absent_notfound_file.
+
 (* Resolve returns the descriptor most recently tagged *)
 Theorem C06_resolve_latest_file : forall fx ig ov s d r h2,
   r <> REmpty ->
